@@ -171,21 +171,25 @@ func (r *Runtime) newDataView(args []Value, newTarget *Object) *Object {
 		panic(r.NewTypeError("First argument to DataView constructor must be an ArrayBuffer"))
 	}
 	var byteOffset, byteLen int
+	bufLen := len(buffer.data)
 	if len(args) > 1 {
 		offsetArg := nilSafe(args[1])
 		byteOffset = r.toIndex(offsetArg)
 		buffer.ensureNotDetached(true)
-		if byteOffset > len(buffer.data) {
+		bufLen = len(buffer.data)
+		if byteOffset > bufLen {
 			panic(r.newErrorf(r.getRangeError(), "Start offset %s is outside the bounds of the buffer", offsetArg.String()))
 		}
 	}
 	if len(args) > 2 && args[2] != nil && args[2] != _undefined {
 		byteLen = r.toIndex(args[2])
-		if byteOffset+byteLen > len(buffer.data) {
+		// compared with the length read before the coercion, which may have detached the buffer
+		// (that is a TypeError, reported below)
+		if byteOffset+byteLen > bufLen {
 			panic(r.newErrorf(r.getRangeError(), "Invalid DataView length %d", byteLen))
 		}
 	} else {
-		byteLen = len(buffer.data) - byteOffset
+		byteLen = bufLen - byteOffset
 	}
 	proto := r.getPrototypeFromCtor(newTarget, r.getDataView(), r.getDataViewPrototype())
 	buffer.ensureNotDetached(true)
